@@ -383,10 +383,12 @@ class L2Gen:
             # table with one row per iteration and a count (tick.id - a) * (tick.id - b); over a chain of runs such a
             # table is idle in some runs and gets its first id in a continued one
             a, b = r.choice([1, 2, 3]), r.choice([1, 2, 3])
-            tid = ["attr", ["name", "n2"], "id"]
-            tick = {"object": "C", "nickname": "n2", "fields": [["f2", ["lit", 0]]]}
+            # the tick has a table and a nickname of its own, so `tk.id` is exactly the iteration number and the counts
+            # stay small whatever else the recipe contains
+            tid = ["attr", ["name", "tk"], "id"]
+            tick = {"object": "K", "nickname": "tk", "fields": [["f2", ["lit", 0]]]}
             var = {"object": r.choice(["A", "B"]), "count": ["tmpl", [["expr", ["mul", ["sub", tid, ["int", a]], ["sub", tid, ["int", b]]]]]],
-                   "fields": [["f1", ["ref", "n2"]]]}
+                   "fields": [["f1", ["ref", "tk"]]]}
             sts.insert(0, tick)
             sts.insert(1, var)
             self.features.add("count-varies-with-iteration")
